@@ -28,6 +28,9 @@ def run(ctx):
     check_v1_pools(ctx, model, C, "C01-V1")
     check_fee_lookup_same_asset(ctx, model, C, "C01-V1")
     check_raw_balance_single_consumer(ctx, model, C, "C01-V1")
+    from .poolvalue import check_cp_share_formula, check_reserves_net_of_fees
+    check_reserves_net_of_fees(ctx, model, C, "C01-V1")
+    check_cp_share_formula(ctx, model, "C01-V6")
     from .poolvalue import check_fee_deduction_all_kinds
     check_fee_deduction_all_kinds(ctx, model, C, "C01-V1")
     # owed protocol fees: the pending entry is transferred to the collector and zeroed only where transferred (C07-F3's rule)
